@@ -29,7 +29,7 @@ theorem run_fuel_mono_false :
   PP.run_fuel_mono_false
 
 /-- corrected statement: more fuel never changes a successful parse of a grammar without choice points and
-    `Combine` (`PP.Simple`: literals, words, line/string ends, `And`, `Group`, `Suppress`, tags, and
+    `Combine` (`PP.Simple`: literals, keywords, words, line/string ends, `And`, `Group`, `Suppress`, tags, and
     references into an environment of such grammars).
     For the full grammar the fuel-robust notions are `PP.Ok` / `PP.No` (Lemmas/PPRun.lean): success resp.
     failure for *every* fuel above a closed bound; all round-trip theorems below are proved through them. -/
@@ -79,8 +79,8 @@ theorem dl_domain_rt (kw : List Char) (hkw : kw = "length".toList ∨ kw = "doma
     rcases hkw with h | h | h
     · exact (Pil.No_sl_kw pil_env kw _ (Or.inl h)).mono (by decide)
     · exact (Pil.No_sl_kw pil_env kw _ (Or.inr h)).mono (by decide)
-    · rw [h]; exact Pil.No_sl_digits pil_env (a + 1) nc m st b sign hs c dc dm _ hnc hm hdc
-  exact Pil.dl_parse kw hkw (a + 1) nc m st b sign hs c (dc :: dm) _ _ _ hnc hm hlen (Pil.EolTail_nl e) hsl
+    · rw [h]; exact Pil.No_sl_digits pil_env (a + 1) (Nat.succ_pos a) nc m st b sign hs c dc dm _ hnc hm hdc
+  exact Pil.dl_parse kw hkw (a + 1) (Nat.succ_pos a) nc m st b sign hs c (dc :: dm) _ _ _ hnc hm hlen (Pil.EolTail_nl e) hsl
     (by decide) (by decide)
     (Pil.notab_of_nums _ (by intro x hx; rcases List.mem_cons.mp hx with rfl | h; exact hdc; exact hdm x h))
     (Pil.notab_nl_tail e)
@@ -107,10 +107,10 @@ theorem dl_domain_dtype_rt (kw : List Char) (hkw : kw = "length".toList ∨ kw =
   have hsl := Pil.No_sl_kw pil_env kw
     (Pil.dlText (a + 1) nc m st b sign c dt (List.replicate e ' ' ++ ['\n'])) hkw
   rcases hdt with rfl | rfl
-  · exact Pil.dl_parse kw hkw' (a + 1) nc m st b sign hs c _ _ _ _ hnc hm
+  · exact Pil.dl_parse kw hkw' (a + 1) (Nat.succ_pos a) nc m st b sign hs c _ _ _ _ hnc hm
       (Pil.Ok_dlength_short pil_env c _) (Pil.EolTail_nl e) hsl (by decide) (by decide) (by decide)
       (Pil.notab_nl_tail e)
-  · exact Pil.dl_parse kw hkw' (a + 1) nc m st b sign hs c _ _ _ _ hnc hm
+  · exact Pil.dl_parse kw hkw' (a + 1) (Nat.succ_pos a) nc m st b sign hs c _ _ _ _ hnc hm
       (Pil.Ok_dlength_long pil_env c _) (Pil.EolTail_nl e) hsl (by decide) (by decide) (by decide)
       (Pil.notab_nl_tail e)
 
@@ -128,7 +128,7 @@ theorem sl_domain_rt (name con : List Char) (st : Bool) (sign : Char) (hs : sign
         Pil.dlText (a + 1) nc m st b sign c (kc :: km) (List.replicate e ' ' ++ ['\n']) := by
     rw [k3]; simp [blanks, Pil.dlText, star, Pil.star, List.append_assoc]
   rw [htext]
-  have hstmt := Pil.Ok_sl_stmt pil_env (a + 1) nc m st b sign hs c kc km _ hnc hm hkc hkm
+  have hstmt := Pil.Ok_sl_stmt pil_env (a + 1) (Nat.succ_pos a) nc m st b sign hs c kc km _ hnc hm hkc hkm
     (skipIgn_blanks_cons e '\n' [] (by decide) (by decide)) (Pil.OutHd_nl_tail e)
   refine Pil.parse_stmt _ _ ⟨_, _, rfl, by decide, by decide, by decide⟩ _ _ hstmt (by decide) ?_
   simp only [List.mem_append, not_or]
@@ -152,7 +152,7 @@ theorem sl_domain_len_rt (name con d : List Char) (st : Bool) (s1 s2 : Char) (hs
         (Pil.slTail e s2 f dc dm (List.replicate g ' ' ++ ['\n'])) := by
     rw [k3]; simp [blanks, Pil.dlText, Pil.slTail, star, Pil.star, List.append_assoc]
   rw [htext]
-  have hstmt := Pil.Ok_sl_len_stmt pil_env (a + 1) nc m st b s1 hs1 c kc km e s2 hs2 f dc dm _ hnc hm hkc hkm
+  have hstmt := Pil.Ok_sl_len_stmt pil_env (a + 1) (Nat.succ_pos a) nc m st b s1 hs1 c kc km e s2 hs2 f dc dm _ hnc hm hkc hkm
     hdc hdm (Pil.EolTail_nl g) (Pil.OutHd_nl_tail g)
   refine Pil.parse_stmt _ _ ⟨_, _, rfl, by decide, by decide, by decide⟩ _ _ hstmt (by decide) ?_
   have hs2' : '\t' ≠ s2 := by rcases hs2 with rfl | rfl <;> decide
@@ -184,7 +184,7 @@ theorem dl_domain_comment_rt (name d comment : List Char) (hn : Ident name) (hd 
   have hlen := Pil.Ok_dlength_num pil_env 1 dc dm _ hdc hdm (Pil.OutHd_comment_tail e comment)
   have hsl := Pil.No_sl_kw pil_env ['l', 'e', 'n', 'g', 't', 'h']
     (Pil.dlText 1 nc m false 1 '=' 1 (dc :: dm) (List.replicate e ' ' ++ '#' :: comment)) (Or.inl rfl)
-  have := Pil.dl_parse _ (Or.inl rfl) 1 nc m false 1 '=' (Or.inl rfl) 1 (dc :: dm) _ _ _ hnc hm hlen
+  have := Pil.dl_parse _ (Or.inl rfl) 1 (by decide) nc m false 1 '=' (Or.inl rfl) 1 (dc :: dm) _ _ _ hnc hm hlen
     (Pil.EolTail_comment e comment hc) hsl (by decide) (by decide)
     (Pil.notab_of_nums _ (by intro x hx; rcases List.mem_cons.mp hx with rfl | h; exact hdc; exact hdm x h))
     (by simp only [List.mem_append, List.mem_cons, not_or]; exact ⟨Pil.notab_replicate e, by decide, ht⟩)
@@ -210,8 +210,31 @@ theorem dl_domain_missing_assign_rejected (name d : List Char) (hn : Ident name)
   simp only [List.mem_append, not_or]
   exact ⟨by decide, Pil.notab_replicate _, h1, Pil.notab_replicate _, h2, by decide⟩
 
-/-- non-vacuity / regression: the model reproduces the keyword-prefix behaviour recorded as a known finding -/
-example : parseDoc pil_env pil_grammar "lengthy = 5" = some [.grp [.tok "dl-domain", .tok "y", .tok "5"]] := by
+/-! Non-vacuity / regression: statement keywords are `Keyword`s, not `Literal`s.  With `Literal("length")` the text
+`lengthy = 5` parsed as the domain-length statement `[dl-domain, y, 5]` (the former known finding: a keyword matched a
+prefix of a longer name); with `Keyword` the statement keyword must be followed by a non-identifier character, and
+`lengthy` is the name of a kernel complex.  (`Props/C13Kernel.lean`, `keyword_prefixed_name_rt`, is the general statement.) -/
+example : parseDoc pil_env pil_grammar "lengthy = 5" =
+    some [.grp [.tok "kernel-complex", .tok "lengthy", .grp [.tok "5"]]] := by
+  rfl
+
+/-- the keyword followed by a blank still introduces a domain-length statement -/
+example : parseDoc pil_env pil_grammar "length y = 5" = some [.grp [.tok "dl-domain", .tok "y", .tok "5"]] := by
+  rfl
+
+/-- a complex may be named like a keyword: `length` matches as a keyword, but `=` is not a domain name, the
+    alternative fails and the ordered choice reaches `kernel-complex` -/
+example : parseDoc pil_env pil_grammar "length = 5" =
+    some [.grp [.tok "kernel-complex", .tok "length", .grp [.tok "5"]]] := by
+  rfl
+
+/-- `-` is an identifier character, so `sup-sequence` is not a keyword match in `sup-sequence-x` -/
+example : parseDoc pil_env pil_grammar "sup-sequence-x = a b" =
+    some [.grp [.tok "kernel-complex", .tok "sup-sequence-x", .grp [.tok "a", .tok "b"]]] := by
+  rfl
+
+example : parseDoc pil_env pil_grammar "strand x = a b" =
+    some [.grp [.tok "composite-domain", .tok "x", .grp [.tok "a", .tok "b"]]] := by
   rfl
 
 end Dsd.C13
